@@ -1030,6 +1030,94 @@ VF_SUB(sym_aead_roundtrip_and_flips, 112, 5000) {
   ctx.count("faults_injected", faults);
 }
 
+// =========================================================================== private key blocks (pass-phrase protected secret keys)
+// The library's own secret key encoders cover DSA primary keys and ElGamal subkeys.  A complete transferable secret key is built from
+// the pooled keys (secret key packet, user ID, self-signature, secret subkey packet, binding signature), armored, and read back through
+// PrivateKeyBlockParse: with the pass phrase it was protected with the key must come back complete (secret exponents equal, self-signatures
+// and binding valid, signing with the parsed key verifies under the pooled public key, a session key encrypted to the subkey decrypts);
+// with any other pass phrase, or with one byte of the protected secret material altered, it must be refused.
+static unsigned char eval_prvblock(const Oct &bytes, const std::string &pass, gcry_mpi_t want_x, gcry_mpi_t want_subx) {
+  TMCG_OpenPGP_Prvkey *prv = nullptr; tmcg_openpgp_secure_string_t pw; for (char ch : pass) pw += ch;
+  if (!PGP::PrivateKeyBlockParse(bytes, 0, pw, prv)) return 0; // frees its out-pointer on failure
+  unsigned char v = 1; if (prv->Good()) v |= 2;
+  if (prv->dsa_x && gcry_mpi_cmp(prv->dsa_x, want_x) == 0) v |= 4;
+  if (prv->private_subkeys.size() == 1 && prv->private_subkeys[0]->elg_x && gcry_mpi_cmp(prv->private_subkeys[0]->elg_x, want_subx) == 0) v |= 8;
+  delete prv; return v;
+}
+VF_SUB(private_key_block_roundtrip, 40, 1500) {
+  PGP::MemoryGuardReset();
+  static const char *pn[] = {"dsa2048a", "dsa2048b", "dsa1024"}; BlockSpec sp; sp.prim = &key_named(pn[ctx.c.index(3)]); sp.sub = &key_named("elg2048"); Key &P = *sp.prim, &Sb = *sp.sub;
+  sp.uid = gen_uid(ctx); sp.bis = ctx.c.coin(); sp.issuer_fpr = ctx.c.coin(); sp.direct = ctx.c.prob(1, 4);
+  auto strong = [&](const Key &k) { for (int t = 0; t < 20; t++) { int h = STRONG_HASHES[ctx.c.index(5)]; if (hash_fits_key(k, h)) return (tmcg_openpgp_hashalgo_t)h; } return TMCG_OPENPGP_HASHALGO_SHA512; };
+  sp.h_uid = strong(P); sp.h_sub = strong(P); sp.h_dir = strong(P);
+  sp.keytime = vtime() - (time_t)ctx.c.range(100, 100000000); sp.subtime = sp.keytime + (time_t)ctx.c.range(0, 50); sp.uidsigtime = sp.keytime + (time_t)ctx.c.range(0, 50); sp.subsigtime = sp.subtime + (time_t)ctx.c.range(0, 40); sp.dirsigtime = sp.keytime + (time_t)ctx.c.range(0, 50);
+  std::string pcls, pass; switch (ctx.c.weighted({2, 3, 2, 1})) { case 0: pcls = "empty"; break; case 1: pcls = "short"; pass = gen_uid(ctx).substr(0, 12); break; case 2: pcls = "long"; for (int i = 0; i < 4; i++) pass += gen_uid(ctx); break; default: pcls = "non-ascii"; pass = "p\xc3\xa4ss \xe2\x82\xac " + gen_uid(ctx); }
+  bool armored = ctx.c.coin();
+  std::ostringstream d; d << P.name << "+" << Sb.name << " uid(" << sp.uid.size() << ") pass-phrase=" << pcls << "(" << pass.size() << ")" << (armored ? " armored" : " binary") << (sp.direct ? " direct-key-sig" : "");
+  ctx.desc << d.str(); ctx.label("primary:" + P.name); ctx.label("pass-phrase:" + pcls); ctx.label(armored ? "armored" : "binary");
+  Block B = build_block(sp); if (!B.ok) { ctx.fail("prvkey/library-cannot-build-block", B.err + " for " + d.str()); return; }
+  tmcg_openpgp_secure_string_t pw; for (char ch : pass) pw += ch;
+  Oct sec, ssb; gcry_mpi_t zero = gcry_mpi_set_ui(NULL, 0);
+  PGP::PacketSecEncode(sp.keytime, P.algo, P.m[0], P.m[1], P.m[2], P.m[3], P.sec[0], pw, sec);
+  PGP::PacketSsbEncode(sp.subtime, Sb.algo, Sb.m[0], zero, Sb.m[1], Sb.m[2], Sb.sec[0], pw, ssb); gcry_mpi_release(zero);
+  // the public part of a secret key packet is the public key packet: same fingerprint, the signatures of the public block stay valid
+  Oct all; std::vector<std::string> role; std::vector<std::pair<size_t, size_t> > where; // (offset, length) of sec / ssb in `all`
+  for (size_t j = 0; j < B.spans.size(); j++) { const std::string &r = B.role[j]; Oct pkt = r == "pub" ? sec : r == "sub" ? ssb : Oct(B.all.begin() + B.spans[j].off, B.all.begin() + B.spans[j].end());
+    if (r == "pub" || r == "sub") where.push_back(std::make_pair(all.size(), pkt.size())); app(all, pkt); role.push_back(r); }
+  Oct fed = all; std::string arm; if (armored) { PGP::ArmorEncode(TMCG_OPENPGP_ARMOR_PRIVATE_KEY_BLOCK, all, arm); }
+  auto parse = [&](const Oct &bin, const std::string &pp, TMCG_OpenPGP_Prvkey *&prv) { tmcg_openpgp_secure_string_t w; for (char ch : pp) w += ch; return armored ? (bin == all ? PGP::PrivateKeyBlockParse(arm, 0, w, prv) : [&] { std::string a2; PGP::ArmorEncode(TMCG_OPENPGP_ARMOR_PRIVATE_KEY_BLOCK, bin, a2); return PGP::PrivateKeyBlockParse(a2, 0, w, prv); }()) : PGP::PrivateKeyBlockParse(bin, 0, w, prv); };
+  ctx.nontrivial(d.str() + hkey(all));
+  // ---- positive
+  TMCG_OpenPGP_Prvkey *prv = nullptr;
+  if (!parse(all, pass, prv)) { ctx.fail("prvkey/own-block-refused-with-its-pass-phrase", d.str() + " block=" + hexs(all, 1200)); return; }
+  std::unique_ptr<TMCG_OpenPGP_Prvkey> hold(prv);
+  if (!prv->Good() || !prv->pub || !prv->pub->Good()) { ctx.fail("prvkey/parsed-key-not-good", d.str()); return; }
+  if (prv->pub->fingerprint != B.fpr || prv->pub->id != B.kid) ctx.fail("prvkey/fingerprint-differs-from-public-key", d.str());
+  if (!prv->dsa_x || gcry_mpi_cmp(prv->dsa_x, P.sec[0])) ctx.fail("prvkey/secret-exponent-differs", "primary key x differs after the round trip: " + d.str());
+  if (prv->private_subkeys.size() != 1) { ctx.fail("prvkey/subkey-lost", std::to_string(prv->private_subkeys.size()) + " private subkeys: " + d.str()); return; }
+  if (!prv->private_subkeys[0]->elg_x || gcry_mpi_cmp(prv->private_subkeys[0]->elg_x, Sb.sec[0])) ctx.fail("prvkey/secret-exponent-differs", "subkey x differs after the round trip: " + d.str());
+  { TMCG_OpenPGP_Keyring *ring = new TMCG_OpenPGP_Keyring(); prv->RelinkPublicSubkeys(); // the documented way to check a parsed private key: its public subkeys are linked into the public key object for the check
+    if (!prv->pub->CheckSelfSignatures(ring, 0)) ctx.fail("prvkey/self-signatures-refused", d.str());
+    if (!prv->pub->CheckSubkeys(ring, 0) || prv->pub->subkeys.size() != 1 || !prv->pub->subkeys[0]->valid) ctx.fail("prvkey/subkey-binding-refused", d.str());
+    prv->RelinkPrivateSubkeys(); delete ring; }
+  if (ctx.failed) return;
+  { // sign with the parsed key, verify under the pooled public key
+    Oct data = gen_binary_doc(ctx, (size_t)ctx.c.range(0, 300)), tr, hash, left, sigpkt; tmcg_openpgp_hashalgo_t h = strong(P);
+    PGP::PacketSigPrepareDetachedSignature(TMCG_OPENPGP_SIGNATURE_BINARY_DOCUMENT, P.algo, h, vtime() - 5, 0, "", B.fpr, tr); PGP::BinaryDocumentHash(data, tr, h, hash, left);
+    if (!prv->SignData(hash, h, tr, left, 0, sigpkt)) ctx.fail("prvkey/parsed-key-cannot-sign", d.str());
+    else { std::unique_ptr<TMCG_OpenPGP_Signature> sg(parse_sig(sigpkt)); if (!sg || !sg->VerifyData(P.pub, data, 0)) ctx.fail("prvkey/signature-of-parsed-key-refused", d.str()); else { if (data.size()) { Oct d2 = data; d2[0] ^= 1; if (sg->VerifyData(P.pub, d2, 0)) ctx.fail("prvkey/signature-of-parsed-key-verifies-other-data", d.str()); } } } }
+  { // a session key encrypted to the subkey
+    SOct seskey = session_key(9, stream_bytes(ctx.c.raw64(), 32)); gcry_mpi_t gk = gcry_mpi_new(8), myk = gcry_mpi_new(8); Oct pkesk;
+    gcry_error_t e = PGP::AsymmetricEncryptElgamal(seskey, prv->private_subkeys[0]->pub->key, gk, myk);
+    if (e) ctx.fail("prvkey/cannot-encrypt-to-parsed-subkey", gcry_strerror(e));
+    else { PGP::PacketPkeskEncode(prv->private_subkeys[0]->pub->id, gk, myk, pkesk); Oct lit, msgb; PGP::PacketLitEncode(Oct(1, 'x'), lit); Oct prefix, enc, seipd, mdcpkt; SOct k2 = seskey; // message: PKESK + SEIPD
+      TMCG_OpenPGP_Message *msg = nullptr; Oct dummy; Oct hin; SOct sk;
+      if (!PGP::SymmetricEncryptAES256(lit, k2, prefix, true, dummy)) { hin = prefix; app(hin, lit); hin.push_back(0xD3); hin.push_back(0x14); PGP::PacketMdcEncode(H(2, hin), mdcpkt); Oct pl = cat(lit, mdcpkt);
+        if (!PGP::SymmetricEncryptAES256(pl, k2, prefix, false, enc)) { PGP::PacketSeipdEncode(enc, seipd); msgb = cat(pkesk, seipd);
+          if (PGP::MessageParse(msgb, 0, msg)) { const TMCG_OpenPGP_PKESK *esk = msg->PKESKs.size() ? msg->PKESKs[0] : nullptr;
+            if (!esk || !prv->private_subkeys[0]->Decrypt(esk, 0, sk) || from_secure(sk) != from_secure(k2)) ctx.fail("prvkey/parsed-subkey-cannot-decrypt", d.str());
+            else { Oct out; if (!msg->Decrypt(sk, 0, out)) ctx.fail("prvkey/message-to-parsed-subkey-refused", d.str()); }
+            delete msg; } else ctx.fail("prvkey/own-message-unparsable", d.str()); } } }
+    gcry_mpi_release(gk); gcry_mpi_release(myk); }
+  if (ctx.failed) return;
+  // ---- negative: other pass phrases
+  if (!pass.empty()) { // (an empty pass phrase leaves the secret material unprotected: there is nothing a pass phrase could be checked against)
+    std::vector<std::string> wrong; wrong.push_back(pass + "x"); if (!pass.empty()) { wrong.push_back(pass.substr(0, pass.size() - 1)); std::string w = pass; w[ctx.c.index(w.size())] ^= 0x01; wrong.push_back(w); wrong.push_back(""); wrong.push_back(pass + std::string(1, '\0')); } else wrong.push_back(" ");
+    for (auto &w : wrong) { if (w == pass) continue; TMCG_OpenPGP_Prvkey *q = nullptr; bool acc = parse(all, w, q); if (acc) { delete q; ctx.fail("prvkey/wrong-pass-phrase-accepted", "pass phrase of " + std::to_string(w.size()) + " octets instead of " + std::to_string(pass.size()) + ": " + d.str()); break; } }
+    ctx.count("faults_injected", (int64_t)wrong.size()); }
+  if (ctx.failed) return;
+  // ---- negative: one bit of the protected secret material.  A protected packet ends with salt (8), count (1), IV (16) and the CFB ciphertext
+  //      of MPI(x) || SHA-1; an unprotected one with MPI(x) and a two-octet sum.  Everything before that is public material, which the
+  //      self-signatures protect (judged in sig_certification_and_key_signatures), not the pass phrase.
+  { std::vector<std::pair<size_t, unsigned char> > fl; for (size_t wi = 0; wi < where.size(); wi++) { auto &w = where[wi]; size_t xl = (gcry_mpi_get_nbits(wi == 0 ? P.sec[0] : Sb.sec[0]) + 7) / 8, tail = pass.empty() ? 2 + xl + 2 : 8 + 1 + 16 + 2 + xl + 20; size_t hi = w.first + w.second, lo = hi - std::min(tail, w.second); for (int k = 0; k < 10; k++) fl.push_back(std::make_pair(lo + ctx.c.index(hi - lo), (unsigned char)(1u << ctx.c.index(8)))); fl.push_back(std::make_pair(hi - 1, (unsigned char)0x01)); }
+    auto mutated = [&](size_t i) { Oct m = all; m[fl[i].first] ^= fl[i].second; return m; };
+    auto res = run_forked(ctx, fl.size(), [&](size_t i) -> unsigned char { Oct m = mutated(i); if (armored) { std::string a2; PGP::ArmorEncode(TMCG_OPENPGP_ARMOR_PRIVATE_KEY_BLOCK, m, a2); TMCG_OpenPGP_Prvkey *q = nullptr; tmcg_openpgp_secure_string_t w; for (char ch : pass) w += ch; if (!PGP::PrivateKeyBlockParse(a2, 0, w, q)) return 0; unsigned char v = 1; if (q->dsa_x && !gcry_mpi_cmp(q->dsa_x, P.sec[0])) v |= 4; if (q->private_subkeys.size() == 1 && q->private_subkeys[0]->elg_x && !gcry_mpi_cmp(q->private_subkeys[0]->elg_x, Sb.sec[0])) v |= 8; delete q; return v; } return eval_prvblock(m, pass, P.sec[0], Sb.sec[0]); }, mutated, "prvblock");
+    ctx.count("faults_injected", (int64_t)fl.size());
+    if (pass.empty()) { // unprotected material carries a 16-bit additive checksum only: an altered value that still sums up would be a different key, never the same one
+      for (size_t i = 0; i < res.size() && !ctx.failed; i++) if (res[i] < 0xF0 && (res[i] & 1) && (res[i] & 4) && (res[i] & 8)) ctx.fail("prvkey/altered-secret-material-yields-the-same-key", "flip at offset " + std::to_string(fl[i].first) + " " + d.str()); }
+    else for (size_t i = 0; i < res.size() && !ctx.failed; i++) if (res[i] < 0xF0 && (res[i] & 1)) ctx.fail("prvkey/altered-protected-secret-material-accepted", "one flipped bit at offset " + std::to_string(fl[i].first) + " (mask " + std::to_string(fl[i].second) + ") of the encrypted secret key material and the block is still accepted with the pass phrase: " + d.str()); }
+}
+
 // =========================================================================== public-key encrypted session keys
 struct Recipient { Key *k = nullptr; Oct subpkt; std::unique_ptr<TMCG_OpenPGP_PrivateSubkey> prv; };
 static bool make_recipient(Key &k, time_t t, Recipient &R) {
